@@ -179,7 +179,7 @@ fn prepare<G: Group>(m: &Member) -> Prepared<G> {
                 ctx: m.ctx.clone(),
                 proof,
             };
-            let mut fr = SimRng::new(*fault_seed);
+            let fr = SimRng::new(*fault_seed);
             for (i, f) in faults.iter().enumerate() {
                 if let Some(n) = apply_fault(&msg, f, &mut fr.split_idx("f", i as u64)) {
                     msg = n;
